@@ -52,10 +52,17 @@ Definition clog2_rat (v : rat) : Z :=
   if req (rpow2 l) (rabs v) then l else l + 1.
 
 (* get_exp (quantizer_impl.py:39-62): returns (-min_exp, max_exp) *)
-Definition get_exp (t : qt) : Z * Z :=
+(* bits of the exponent magnitude: the exponent carries a sign bit unless max_value <= 1
+   (quantizers._need_exponent_sign_bit_check; repaired by fix: dcbc898, before that always nsb - 1) *)
+Definition exp_bits (t : qt) : Z :=
   let nsb := if q_sgn t then q_bits t - 1 else q_bits t in
-  let min_exp := - 2 ^ (nsb - 1) in
-  let max_orig := 2 ^ (nsb - 1) - 1 in
+  match q_maxv t with
+  | Some v => if rle v (1, 1) then nsb else nsb - 1
+  | None => nsb - 1
+  end.
+Definition get_exp (t : qt) : Z * Z :=
+  let min_exp := - 2 ^ exp_bits t in
+  let max_orig := 2 ^ exp_bits t - 1 in
   let max_exp :=
     match q_maxv t with
     | None => max_orig
